@@ -357,6 +357,7 @@ type nativeResult struct {
 	raceSeen   map[string]bool
 	err        string
 	validated  int
+	lost       int // witnesses handed to the native runner that came back without a result
 	skipped    int
 	mismatches []string
 	results    map[string]*nativeRun // key: witness id
@@ -595,6 +596,14 @@ func runNative(overlay map[string][]byte, pkgs map[string]string, reports []*Har
 	// free-running run does not show the race and the engine found it under a schedule with preemptions,
 	// a -race binary built from the instrumented copy replays the engine's order of synchronisation
 	// operations (instrument.go)
+	for _, j := range jobs {
+		if nr.results[j.ID] == nil {
+			nr.lost++
+		}
+	}
+	if nr.lost > 0 {
+		fmt.Fprintf(os.Stderr, "WARNING native co-execution: %d of %d witnesses came back without a result\n", nr.lost, len(jobs))
+	}
 	nr.raceSeen = map[string]bool{}
 	raceJobs := map[string][]witnessJob{}
 	for _, rep := range reports {
@@ -1020,6 +1029,7 @@ func writeEvidence(prop, tier string, seed int, reports []*HarnessReport, nat *n
 	if nat != nil {
 		cov["traces_validated_against_impl"] = nat.validated
 		cov["witnesses_not_coexecutable"] = nat.skipped
+		cov["witnesses_without_native_result"] = nat.lost
 	}
 	var ks []string
 	for k := range known {
